@@ -414,6 +414,18 @@ func (r *Run) Sample(v any) {
 	r.mu.Unlock()
 }
 func (r *Run) Set(k string, v any) { r.mu.Lock(); r.extra[k] = v; r.mu.Unlock() }
+
+// Note records v under extra[k][sub] (a per-item coverage table in the evidence).
+func (r *Run) Note(k, sub string, v any) {
+	r.mu.Lock()
+	m, _ := r.extra[k].(map[string]any)
+	if m == nil {
+		m = map[string]any{}
+		r.extra[k] = m
+	}
+	m[sub] = v
+	r.mu.Unlock()
+}
 func (r *Run) Inc(k string, n int64) {
 	r.mu.Lock()
 	if r.recheck {
